@@ -643,3 +643,13 @@ def parser_bits_entry(O):
     from . import C12
     R = rep()
     C12.bits_entry_kept(O, dri.Rep(dict(R.facts), B.bits_scenarios(1, 7) + B.bits_scenarios(1, -2) + list(R.battery), R.judge))
+
+
+@obligation("C01/kani-frames-set", profiles=("dev",),
+            desc="second engine (Kani / CBMC over the compiled code, FramedMap<u8, i64>): two `set`s with distinct keys, "
+                 "push_frame, one more `set` with an arbitrary key (equal to either earlier key or new), then pop_frame - the "
+                 "new binding is the visible one inside the frame and both earlier bindings are intact afterwards (a counter "
+                 "shadows, it never overwrites, a binding of the enclosing scope); keys and values symbolic, shape concrete")
+def kani_frames_set(O):
+    from . import kani_obs
+    kani_obs.framed_map_kernels(O, "C01")
